@@ -76,7 +76,8 @@ def o_cross(rec: Recorder, case, soft=False):
     ps = passlib_settings(pair, salt, rounds)
     wrong = ("Zq" if isinstance(secret, str) else b"Zq") + secret
     if pair == "bcrypt":
-        wrong = (secret[:-1] + ("~" if isinstance(secret, str) else b"~")) if len(secret) else ("x" if isinstance(secret, str) else b"x")
+        alt = "#" if secret[-1:] in ("~", b"~") else "~"
+        wrong = (secret[:-1] + (alt if isinstance(secret, str) else alt.encode())) if len(secret) else ("x" if isinstance(secret, str) else b"x")
         if len(wrong.encode() if isinstance(wrong, str) else wrong) > 72:
             wrong = wrong[:10]
     ref = RF.ref_hash(pname, secret, RF.norm_settings(pname, ps), {})
